@@ -488,6 +488,15 @@ impl Session {
         self.trace.push(json!({"ev":"op","op":"remove_client_transport","peer":peer}));
     }
 
+    /// the application starts hosting again after `stop_host` (a fresh RenetServer and transport on the same port)
+    pub fn restart_host(&mut self) {
+        let t = make_server_transport(self.ip, self.port);
+        let p = &mut self.peers[0];
+        p.app.insert_resource(RenetServer::new(bevy_renet::renet::ConnectionConfig::default()));
+        p.app.insert_resource(t);
+        self.trace.push(json!({"ev":"op","op":"start_host","peer":0}));
+    }
+
     pub fn stop_host(&mut self, peer: u32) {
         self.peers[peer as usize].app.world_mut().remove_resource::<NetcodeServerTransport>();
         self.trace.push(json!({"ev":"op","op":"stop_host","peer":peer}));
@@ -1081,6 +1090,23 @@ pub fn msg_json(as_server: bool, m: &verif::VMessage) -> Value {
         FinishedInitialSync => json!({"k":"finsync"}),
     };
     json!({"as_server": as_server, "msg": body})
+}
+
+/// what bevy_sync's `create_server` builds (it is crate-private): used when the application starts hosting again
+pub fn make_server_transport(ip: IpAddr, port: u16) -> NetcodeServerTransport {
+    use bevy_renet::renet::transport::{ServerAuthentication, ServerConfig};
+    use std::time::SystemTime;
+    let socket = UdpSocket::bind((ip, port)).unwrap();
+    let server_addr = socket.local_addr().unwrap();
+    let current_time = SystemTime::now().duration_since(SystemTime::UNIX_EPOCH).unwrap();
+    let server_config = ServerConfig {
+        current_time,
+        max_clients: 64,
+        protocol_id: 1,
+        public_addresses: vec![server_addr],
+        authentication: ServerAuthentication::Unsecure,
+    };
+    NetcodeServerTransport::new(server_config, socket).unwrap()
 }
 
 pub fn make_client_transport(ip: IpAddr, port: u16) -> NetcodeClientTransport {
